@@ -44,6 +44,12 @@ CHECKS.update({
                 text="Threaded runtime: every record-flag combination and truncation of the same graph/seed/history must be a behaviour of RexLaw, agree with the fully recorded run on the common prefix and leave the probe logs identical; compiled runtime: aux['record'] rows equal the probe log for executed steps and stay -1 otherwise, final GraphState minus the record is identical with and without recording."),
 })
 
+CHECKS.update({
+    "C16": dict(level="model_checking", ref="6 C16",
+                technique="TLA+ state machine of the configuration API (NodeConfig) checked exhaustively; TLC-simulated behaviours replayed on real BaseNode objects with state comparison after every call; episodes after set_delay validated by RexTrace",
+                text="NodeConfig: phase = longest expected-delay path over un-skipped connections, loop iff un-skipped cycle upstream, setters and the info round trip; every TLC behaviour is replayed on real nodes and phase / delays / distribution identity / input keys (shadow names) are compared through attributes and through node.info; simulated episodes after set_delay must follow the law with the new distributions."),
+})
+
 NA = {
     "C11": "numeric claim about one pure function (interpolation exactness, continuity, gradient); no state, schedule or history for a TLA+ model to decide (DESIGN 7)",
     "C15": "numeric/statistical claims about pure distribution functions (quantiles, CDF agreement, estimator normalisation) (DESIGN 7)",
